@@ -491,6 +491,8 @@ pub fn run(ctx: &Ctx) -> Collector {
         let t1 = std::time::Instant::now();
         let c1 = "HELLO WORLD";
         let c2 = "hello, world! 0123456789";
+        // cannot be encoded at the default level (byte capacity of 40-Q is 1663): the error path inside a history
+        let c3: &'static str = Box::leak("z".repeat(1700).into_boxed_str());
         #[derive(Clone)]
         enum Call {
             Qr(&'static str),
@@ -507,6 +509,8 @@ pub fn run(ctx: &Ctx) -> Collector {
             Call::Svg(c2, vec![]),
             Call::Svg(c2, vec![Op::Version(5), Op::Margin(0)]),
             Call::Svg(c1, vec![Op::Shape(1), Op::ModuleColor("#ff0000".into())]),
+            Call::Qr(c3),
+            Call::Svg(c3, vec![]),
         ];
         let hd = if thorough { 4 } else { 3 };
         let total = calls.len().pow(hd as u32);
